@@ -28,7 +28,9 @@
                  (U+2028/U+2029 are printed raw by graphql-core's `print_ast` inside string
                   literals: the literal is cut in two; the others can only come from block strings)
 
-  Outside these regions `embed` is exact (validated against the real `ast_to_str` on every run).
+  Outside these regions `embed` is exact (validated against the real `ast_to_str` on every run) for texts
+  of at least two lines — a printed operation has at least three; a single constant is not rewritten at all
+  by `format_multiline_strings` (its regex asks for two or more adjacent literals).
   `vi` = `get_variable_indent_size` of the assignment (8 in a client method, 0 in the operations
   module), `off` = `multiline_strings_offset` (4 for `ast_to_str`, 0 for ExtractOperations).
 
